@@ -64,10 +64,17 @@ Theorem C10_peer_set_atomic : forall l, accepts l = true ->
 Proof. exact set_atomic. Qed.
 Print Assumptions C10_peer_set_atomic.
 
-Theorem C10_peer_gate_closed : forall l g dec, accepts l = true -> l_ent l = Peer g dec -> gate_ok g = false ->
+Theorem C10_peer_gate_closed : forall l g dec, accepts l = true -> l_fault l = false -> l_ent l = Peer g dec -> gate_ok g = false ->
   (forall call, In call (l_calls l) -> call = []) /\ l_err l = Some EGate.
 Proof. exact peer_gate_closed. Qed.
 Print Assumptions C10_peer_gate_closed.
+
+(* A verification that could not complete (beacon-node lookup failed, timed out or was aborted by the
+   caller) lets nothing in, whatever was submitted: the decision under an env fault is Reject. *)
+Theorem C10_fault_rejects : forall l, accepts l = true -> l_fault l = true ->
+  (forall call, In call (l_calls l) -> call = []) /\ l_err l <> None.
+Proof. exact fault_rejects. Qed.
+Print Assumptions C10_fault_rejects.
 
 Theorem C10_gate_window : forall g, gate_ok g = true ->
   g_type_valid g = true /\ (g_duty_slot g / g_spe g <= g_now_slot g / g_spe g + g_allowed g)%N.
